@@ -84,15 +84,16 @@ type Sched struct {
 	Stuck  bool
 	Start  time.Time
 
-	mu      sync.Mutex
-	tasks   []*Task
-	byGID   map[uint64]*Task
-	locks   map[string]bool
-	free    bool
-	mainGID uint64
-	last    *Task
-	anonN   map[string]int
-	hooked  bool
+	mu       sync.Mutex
+	tasks    []*Task
+	byGID    map[uint64]*Task
+	locks    map[string]bool
+	lockWait map[string]chan struct{} // free mode: goroutines waiting for a modelled lock
+	free     bool
+	mainGID  uint64
+	last     *Task
+	anonN    map[string]int
+	hooked   bool
 }
 
 // New creates a scheduler. rng is the schedule PRNG (derive it from the
@@ -101,12 +102,13 @@ func New(c *core.Ctx, rng *core.Rand) *Sched {
 	return &Sched{
 		C: c, Rng: rng,
 		TickProb: 0.1, Sticky: 0.0, MaxSteps: 5000, StuckAfter: 10 * time.Minute,
-		Quanta:  []time.Duration{time.Millisecond, 3 * time.Millisecond, 10 * time.Millisecond, 50 * time.Millisecond},
-		Start:   time.Now(),
-		byGID:   map[uint64]*Task{},
-		locks:   map[string]bool{},
-		anonN:   map[string]int{},
-		mainGID: goid(),
+		Quanta:   []time.Duration{time.Millisecond, 3 * time.Millisecond, 10 * time.Millisecond, 50 * time.Millisecond},
+		Start:    time.Now(),
+		byGID:    map[uint64]*Task{},
+		locks:    map[string]bool{},
+		lockWait: map[string]chan struct{}{},
+		anonN:    map[string]int{},
+		mainGID:  goid(),
 	}
 }
 
@@ -227,6 +229,12 @@ func (t *Task) Point() string {
 func (s *Sched) hookYield(point string) {
 	s.mu.Lock()
 	if s.free {
+		// Scheduling is over, but a goroutine must still not walk into a modelled
+		// mutex held by a goroutine that is blocked elsewhere (it would block
+		// non-durably and freeze the bubble): wait, durably, for the release.
+		if strings.HasSuffix(point, ".pre") {
+			s.passGate(strings.TrimSuffix(point, ".pre"))
+		}
 		s.mu.Unlock()
 		return
 	}
@@ -251,18 +259,38 @@ func (s *Sched) hookYield(point string) {
 	<-t.resume
 }
 
+// passGate waits (s.mu held on entry and exit) until the modelled lock l is
+// free and reserves it; the goroutine's acquired/released notes take over.
+func (s *Sched) passGate(l string) {
+	for s.locks[l] {
+		ch := s.lockWait[l]
+		if ch == nil {
+			ch = make(chan struct{})
+			s.lockWait[l] = ch
+		}
+		s.mu.Unlock()
+		<-ch
+		s.mu.Lock()
+	}
+	s.locks[l] = true
+}
+
 func (s *Sched) hookNote(point string, v int64) {
 	s.mu.Lock()
-	if s.free {
-		s.mu.Unlock()
-		return
-	}
 	if strings.HasSuffix(point, ".acquired") {
 		s.locks[strings.TrimSuffix(point, ".acquired")] = true
 	} else if strings.HasSuffix(point, ".released") {
-		s.locks[strings.TrimSuffix(point, ".released")] = false
+		l := strings.TrimSuffix(point, ".released")
+		s.locks[l] = false
+		if ch := s.lockWait[l]; ch != nil {
+			close(ch)
+			delete(s.lockWait, l)
+		}
 	}
 	f := s.OnNote
+	if s.free {
+		f = nil
+	}
 	s.mu.Unlock()
 	if f != nil {
 		f(point, v)
@@ -439,13 +467,27 @@ func (s *Sched) Free() {
 	var rel []*Task
 	for _, t := range s.tasks {
 		if t.parked && !t.done {
-			t.parked = false
 			rel = append(rel, t)
 		}
 	}
 	s.mu.Unlock()
 	for _, t := range rel {
-		t.resume <- struct{}{}
+		s.mu.Lock()
+		t.parked = false
+		gate := t.lock
+		s.mu.Unlock()
+		if gate == "" {
+			t.resume <- struct{}{}
+			continue
+		}
+		// parked before a modelled mutex: it passes the same gate a free-running
+		// goroutine passes (hookYield), waited for on a helper goroutine
+		go func(t *Task) {
+			s.mu.Lock()
+			s.passGate(gate)
+			s.mu.Unlock()
+			t.resume <- struct{}{}
+		}(t)
 	}
 	synctest.Wait()
 }
